@@ -49,15 +49,19 @@ class XR:
 
     def __add__(self, o):
         o = XR.lift(o)
+        if self.k == "nan" or o.k == "nan":
+            return XR("nan")
         if self.k == 0 and o.k == 0:
             return XR(0, self.v + o.v)
         if self.k * o.k == -1:
-            raise Unsupported("inf - inf (NaN)")
+            return XR("nan")  # inf - inf
         return XR(self.k or o.k)
 
     __radd__ = __add__
 
     def __neg__(self):
+        if self.k == "nan":
+            return self
         return XR(-self.k, None if self.k else -self.v)
 
     def __sub__(self, o):
@@ -67,6 +71,8 @@ class XR:
         return XR.lift(o) + (-self)
 
     def sign(self):
+        if self.k == "nan":
+            raise Unsupported("sign of NaN")
         if self.k:
             return self.k
         if truth(self.v > 0):
@@ -77,6 +83,8 @@ class XR:
 
     def __mul__(self, o):
         o = XR.lift(o)
+        if self.k == "nan" or o.k == "nan":
+            return XR("nan")
         if self.k == 0 and o.k == 0:
             return XR(0, self.v * o.v)
         s = self.sign() * o.sign()
@@ -105,8 +113,10 @@ class XR:
         raise Unsupported("pow")
 
     def cmp(self, o):
-        """returns formula self > o"""
+        """returns formula self > o (every comparison with NaN is False, IEEE-754)"""
         o = XR.lift(o)
+        if self.k == "nan" or o.k == "nan":
+            return False
         if self.k == 0 and o.k == 0:
             return self.v > o.v
         return self.k > o.k
@@ -118,13 +128,24 @@ class XR:
         return XR.lift(o).cmp(self)
 
     def __ge__(self, o):
-        return Not(XR.lift(o).cmp(self))
+        o = XR.lift(o)
+        if self.k == "nan" or o.k == "nan":
+            return False
+        return Not(o.cmp(self))
 
     def __le__(self, o):
+        o = XR.lift(o)
+        if self.k == "nan" or o.k == "nan":
+            return False
         return Not(self.cmp(o))
+
+    def __sym_compare__(self, opname, o):
+        return {"Gt": self.__gt__, "Lt": self.__lt__, "GtE": self.__ge__, "LtE": self.__le__}[opname](o)
 
     def __deep_eq__(self, o):
         o = XR.lift(o)
+        if self.k == "nan" or o.k == "nan":
+            return False
         if self.k != o.k:
             return False
         return True if self.k else self.v == o.v
@@ -145,6 +166,8 @@ def xr_min(a, b):
 
 def xr_exp(x):
     x = XR.lift(x)
+    if x.k == "nan":
+        return x
     if x.k == -1:
         return XR(0, SV(z3.RealVal(0)))
     if x.k == 1:
@@ -158,21 +181,27 @@ def xr_exp(x):
     return XR(0, SV(e))
 
 
-def xr_log(x):
-    """funsor's scalar log: math.log(x) if x > 0 else -inf"""
+def math_log(x):
+    """math.log: NaN for NaN, +inf for +inf, ValueError for x <= 0 and for -inf"""
     x = XR.lift(x)
-    if x.k == 1:
-        return XR(1)
-    if x.k == -1:
-        return XR(-1)
-    if not truth(x.v > 0):
-        return XR(-1)
+    if x.k == "nan" or x.k == 1:
+        return x
+    if x.k == -1 or not truth(x.v > 0):
+        raise Declined("ValueError", "math domain error")
     p = core.cur()
     u = z3.simplify(x.v.e)
     l = LOG(u)
     p.assume(EXP(l) == u)
     p.assume(z3.Implies(u == 1, l == 0))
     return XR(0, SV(l))
+
+
+def xr_log(x):
+    """the scalar `log` op: its REAL body from ops/builtin.py (`math.log(x) if x > 0 else -math.inf`) is interpreted"""
+    return OpMeaning("log", CURRENT_MEANING[0])(x)
+
+
+CURRENT_MEANING = [{}]
 
 
 # ---- extraction of tables and op meanings from the AST ----------------------------------------------
@@ -241,6 +270,7 @@ class OpMeaning:
             raise Unsupported("operator.%s" % f)
         if m[0] == "def":
             node = m[1]
+            CURRENT_MEANING[0] = self.meaning
             ns = dict(
                 _builtin_max=xr_max,
                 _builtin_min=xr_min,
@@ -273,6 +303,8 @@ class _OperatorNS:
 
 class _MathNS:
     inf = float("inf")
+    log = staticmethod(math_log)
+    exp = staticmethod(xr_exp)
 
 
 def fin(p, name):
@@ -364,6 +396,8 @@ class OpTables(Contract):
     def cases(self, table, key):
         if table == "UNITS" and key in ("max", "min"):
             return ["|x=finite", "|x=+inf", "|x=-inf"]
+        if table == "UNITS" and key in ("logaddexp", "sample"):
+            return ["", "|x=-inf"]
         if table == "PRODUCT_TO_POWER":
             return ["|base", "|step"]
         return [""]
@@ -460,3 +494,65 @@ class OpTables(Contract):
                 return core.deep_eq(op(XR(0, SV(POW(x.v.e, n.e))), x), XR(0, SV(POW(x.v.e, n.e + 1))))
             raise Unsupported("power op %s" % power)
         raise Unsupported(table)
+
+
+FMAX = z3.Real("FLOAT_MAX")
+
+
+@register
+class SafeSubArray(Contract):
+    """ops.array._safesub(x, y) (array paths): for finite operands equals x - y; never NaN unless both operands are +inf
+    (inf - inf, the one undefined form: known finding C15/safe-ops-undefined-forms); in particular safesub(x, -inf) is not
+    NaN for any x -- the case the op exists for.  np.clip(v, None, max) is modelled as min(v, FLOAT_MAX) on extended reals."""
+
+    props = ("C15",)
+    file = "funsor/ops/array.py"
+    qualname = "_safesub"
+    total = True
+    mutants = (("clip applied before the negation", "return x + np.clip(-y, None, finfo.max)", "return x - np.clip(y, None, finfo.max)"),)
+
+    def structures(self, tier):
+        for a in ("finite", "+inf", "-inf"):
+            for b in ("finite", "+inf", "-inf"):
+                yield "x=%s,y=%s" % (a, b), (a, b)
+
+    def build(self, p, st):
+        def mk(kind, name):
+            return fin(p, name) if kind == "finite" else XR(1) if kind == "+inf" else XR(-1)
+
+        x, y = mk(st[0], "x"), mk(st[1], "y")
+        p.assume(FMAX > 10)
+        for v in (x, y):
+            if v.k == 0:
+                p.assume(And(v.v <= SV(FMAX), v.v >= SV(-FMAX)))
+
+        class FInfo:
+            max = XR(0, SV(FMAX))
+
+        class NP:
+            @staticmethod
+            def finfo(dt):
+                return FInfo
+
+            iinfo = finfo
+
+            @staticmethod
+            def clip(v, lo, hi):
+                assert lo is None
+                v = XR.lift(v)
+                return xr_min(v, hi)
+
+        class Y(XR):
+            dtype = "float64"
+
+        yy = Y(y.k, y.v)
+        return Ctx(args=(x, yy), namespace={"np": NP, "ValueError": ValueError}, x=x, y=y, st=st)
+
+    def ensures(self, ctx, result):
+        a, b = ctx.st
+        r = XR.lift(result)
+        tag = "[both +inf]" if (a, b) == ("+inf", "+inf") else ""
+        cl = [("never_nan" + tag, r.k != "nan")]
+        if a == "finite" and b == "finite":
+            cl.append(("finite_operands_plain_subtraction", core.deep_eq(r, ctx.x - ctx.y)))
+        return cl
